@@ -57,7 +57,7 @@ def main():
             "path": "tools/check.py",
             "serves_properties": [c["property_id"] for c in checks],
             "kind_free_text": "Lean 4 model (lean/ViaModel) + theorems (lean/ViaProofs) + extractor of tables and structural facts (tools/extract.py) + "
-                              "translator of the parse_char / parse state machines from the current C++ into Lean (tools/cxx2lean.py -> lean/ViaGen, proved equal to the model in lean/ViaProofs/Trans) + "
+                              "translators of the reception side (parse_char / parse state machines, message_headers::parse, rx_chunk::parse, rx_request / rx_response::parse, the two receive functions, header look-ups, predicates) and of the emission side (encoders, are_headers_split, is_valid) from the current C++ into Lean (tools/cxx2lean.py, cxx2lean_rx.py, cxx2lean_enc.py -> lean/ViaGen, proved equal to the model in lean/ViaProofs/Trans) + "
                               "C++ harnesses (harness/) driven by generated operation scripts, diffed against the compiled "
                               "model driver (lake exe via_model)",
         }],
